@@ -209,10 +209,41 @@ pub fn run(ctx: &Ctx) -> Report {
         rep.acc.evals += 1; rep.acc.count("simulator_reset_cases", 1);
         if let Err((sig, d)) = reset_in_simulator(long, short, before) { rep.acc.violation(sig, format!("r:{long}:{short}:{before}"), d); }
     } } }
+    // the device's own random generator (no sampler hook): unseeded and under three seeds, every range, 4000 polls: every gap between
+    // consecutive interrupts must be one that some exact count inside the range produces. (Not exhaustive over the generator's draws: a
+    // membership test on what it happens to draw; sound, and with thousands of draws from at most 5 values, every value of a range is drawn.)
+    for (ri, r) in rs.iter().enumerate() { for sd in 0..4u8 {
+        rep.acc.evals += 1; rep.acc.count("free_running_generator_cases", 1);
+        if let Err((sig, d)) = free_running(*r, sd) { rep.acc.violation(sig, format!("u:{ri}:{sd}"), d); }
+    } }
     rep.bound("ranges", Json::i(nr)); rep.bound("polls", Json::i(polls)); rep.bound("event_sets", Json::i(ne_eff)); rep.bound("samples_branched", Json::i(7));
     rep.require(rep.acc.nontrivial > 1000 && rep.acc.outcomes.len() > 100, "many distinct firing patterns explored");
+    rep.assume("the free_running_generator_cases (timer on its own random generator, 116 range x seed cases of 4000 polls) are a sound membership test on sampled draws, NOT an exhaustive exploration; everything else reported here is enumerated exhaustively through hook H2");
     rep.assume("hook H2 replaces only the RNG draw; empty ranges (rand panics at construction) are caller error and outside the property");
     rep
+}
+
+fn gaps_of(mut t: TimerDevice, polls: u32) -> Vec<u32> {
+    t.enabled = true;
+    let mut gaps = vec![]; let mut since: Option<u32> = None;
+    for _ in 0..polls { let f = t.poll_interrupt().is_some(); if f { if let Some(g) = since { gaps.push(g); } since = Some(0); } else if let Some(g) = &mut since { *g += 1; } }
+    gaps
+}
+/// `sd`: 0 = unseeded, 1..3 = seeds 0, 1, u64::MAX
+fn free_running(r: Range, sd: u8) -> Result<(), (String, String)> {
+    let res = catch(move || {
+        let hi_incl = if r.incl { r.hi } else { r.hi.saturating_sub(1) };
+        let mut allowed = std::collections::BTreeSet::new();
+        for n in r.lo..=hi_incl { let g = gaps_of(Range { lo: n, hi: n, incl: true }.make(Some(5)), 60); if let Some(x) = g.first() { allowed.insert(*x); } }
+        let seed = match sd { 0 => None, 1 => Some(0u64), 2 => Some(1), _ => Some(u64::MAX) };
+        let gaps = gaps_of(r.make(seed), 4000);
+        (allowed, gaps)
+    });
+    let (allowed, gaps) = match res { Ok(x) => x, Err(p) => return Err((format!("panic:{}", panic_site(&p)), format!("{r:?}: {p}"))) };
+    let what = format!("timer with range {}{}{} and {} polled 4000 times with its own generator", r.lo, if r.incl { "..=" } else { ".." }, r.hi, if sd == 0 { "no seed".to_string() } else { format!("seed #{sd}") });
+    if !allowed.is_empty() && gaps.len() < 100 { return Err(("free-running:too-few-interrupts".into(), format!("{what}: fewer than 100 interrupts"))); }
+    if gaps.iter().any(|g| !allowed.contains(g)) { return Err((format!("free-running:gap-outside-range:{}", if sd == 0 { "unseeded" } else { "seeded" }), format!("{what}: some gap between consecutive interrupts is not one that an exact count inside the range gives (those give {allowed:?} polls in between)"))); }
+    Ok(())
 }
 
 /// The timer behind the shared-ownership wrappers (`Arc<Mutex<_>>`, `Arc<RwLock<_>>`), polled through the wrapper; optionally after a
@@ -350,6 +381,7 @@ fn in_simulator(r: Range, prio: u8) -> Result<(), (String, String)> {
 }
 
 pub fn replay(case: &str) -> Option<String> {
+    if let Some(r) = case.strip_prefix("u:") { let (a, b) = r.split_once(':')?; return free_running(*ranges().get(a.parse::<usize>().ok()?)?, b.parse().ok()?).err().map(|(s, d)| format!("[{s}] {d}")); }
     let p: Vec<&str> = case.splitn(4, ':').collect();
     let rs = ranges();
     match *p.first()? {
